@@ -20,7 +20,14 @@
     Assumptions, explicit as hypotheses:
       `LinkDown` / `LinkUp` (what `verify` of ADJACENT headers binds: hash collision-freeness,
       consensus safety), heads handed over by trusted peers / header-sub are honest, batches
-      passed the p2p layer (`p2pAccepts`), nothing is pruned above the stored head.
+      passed the p2p layer (`p2pAccepts`), nothing is pruned above the stored head (`TopStored`,
+      part of the start-state invariant; the runs of `store_stays_on_honest_chain` contain no
+      pruning event).  WITH the pruner running (`store_stays_on_honest_chain_with_pruning_partial`,
+      strengthening S7): removals satisfying C35's per-height condition interleaved arbitrarily,
+      regime pruning window ≥ sampling window and fresh network heads; `TopStored` is then proved.
+      Outside both regimes (a removal of the highest synced header, e.g. after a chain halt longer
+      than the pruning window) a forward batch is not adjacent to anything stored and BOTH stores
+      insert it without verification — not covered, see design_notes/C38.md.
 
   CONVERGENCE (PARTIAL: proved under an explicit fairness hypothesis, in the regime where the
   slow-sync throttle never arms).
@@ -610,6 +617,26 @@ theorem side_conditions_hold_along_every_run_with_pruning (v : Hdr → Hdr → B
     (hok : ∀ k, EvOkP v c e (traceP e { batchSize := bs } evs k) (evs k))
     (hbl : ∀ k, EvBelowP M (evs k)) (k : Nat) : GoodP c e M (traceP e { batchSize := bs } evs k) :=
   traceP_good hwin hmono hd hu hev hM (good_initP c e M bs hbs) hok hbl k
+
+/-- **C38 safety, with the pruner running.**  From the empty store, along EVERY sequence of the
+    syncer's events and, interleaved arbitrarily, removals by the pruner that satisfy C35's
+    per-height condition (`EvOkP`), after every step every stored header is the honest chain's
+    header of its height — and nothing was pruned above the stored head (`TopStored` is not assumed
+    any more, it is part of the invariant that is proved).  Regime: pruning window ≥ sampling
+    window (`hwin`), header age monotone in the height, network heads handed over by trusted peers
+    inside the sampling window (`HeadFresh`, part of `EvOkP`), heads ≤ `M`. -/
+theorem store_stays_on_honest_chain_with_pruning_partial (v : Hdr → Hdr → Bool) (c : Nat → Hdr)
+    (hd : LinkDown v c) (hu : LinkUp v c) (e : Env) (hev : e.verify = v)
+    (hwin : ∀ h, e.chain.oldP h = true → e.chain.oldS h = true)
+    (hmono : ∀ h1 h2, h1 ≤ h2 → e.chain.oldS h2 = true → e.chain.oldS h1 = true)
+    (M : Nat) (hM : M < U64_MAX) (bs : Nat) (hbs : 1 ≤ bs) (evs : Nat → EvP)
+    (hok : ∀ k, EvOkP v c e (traceP e { batchSize := bs } evs k) (evs k))
+    (hbl : ∀ k, EvBelowP M (evs k)) (k : Nat) :
+    AllOnChain c (traceP e { batchSize := bs } evs k).store ∧
+      TopStored (traceP e { batchSize := bs } evs k).store :=
+  let g := (side_conditions_hold_along_every_run_with_pruning v c hd hu e hev hwin hmono M hM bs hbs
+    evs hok hbl k).g3.inv
+  ⟨g.onchain, g.top⟩
 
 /-- "honest peers eventually answer", for runs with removals (same wording as `FairHonestAnswers`) -/
 def FairHonestAnswersP (c : Nat → Hdr) (e : Env) (s0 : State) (evs : Nat → EvP) : Prop :=
